@@ -582,7 +582,7 @@ pub fn run(ctx: &Ctx) {
     ctx.random("random_laws", ctx.pick(60_000, 600_000), move || {
         (proptest::sample::select(vec!["split_join", "strip_lr", "truncate_len", "size_append"]), gen::text(60), gen::text(3), 0i64..70).prop_map(|(law, s, a, n)| Law { law: law.into(), s, a, n })
     }, law_oracle);
-    ctx.random("chains", ctx.pick(60_000, 600_000), move || {
+    ctx.random("chains", ctx.pick(150_000, 1_000_000), move || {
         let link = prop_oneof![
             4 => proptest::sample::select(F0.to_vec()).prop_map(|f| (f.to_string(), vec![])),
             3 => (proptest::sample::select(vec!["append", "prepend", "remove", "remove_first", "default"]), gen::text(3)).prop_map(|(f, a)| (f.to_string(), vec![st(&a)])),
